@@ -62,6 +62,7 @@ class Generated:
         self.unit = ""
         self.includes = []
         self.types = []
+        self.reach = []
 
     @property
     def text(self):
@@ -207,7 +208,13 @@ def assemble(unit_dir, repo, vacuity=False):
                     if t.startswith("//@spec"):
                         cur = blocks["spec"]
                     elif t.startswith("//@loop "):
-                        n = int(t.split()[1]); blocks["loops"][n] = []; cur = blocks["loops"][n]
+                        la = t[len("//@loop "):].strip()
+                        if la.split()[0].isdigit():
+                            n = int(la.split()[0])
+                        else:
+                            lat = _attrs(la)
+                            n = ("head", lat["head"], bool(lat.get("optional")))
+                        blocks["loops"][n] = []; cur = blocks["loops"][n]
                     elif t.startswith("//@insert "):
                         ia = _attrs(t[len("//@insert "):]); ia["text"] = []; blocks["inserts"].append(ia); cur = ia["text"]
                     elif t.startswith("//@replace "):
@@ -263,6 +270,8 @@ def _emit_fn(g, source, a, blocks, vacuity):
         nth = int(ia.get("nth", 1))
         if "after" in ia:
             body = insert_after_pattern(body, ia["after"], txt, f.name, nth=nth)
+        elif "arm_last" in ia:
+            body = insert_after_pattern(body, ia["arm_last"], txt, f.name, nth=nth, arm_last=True)
         elif "arm_end" in ia:
             body = insert_after_pattern(body, ia["arm_end"], txt, f.name, nth=nth, arm_end=True)
         else:
@@ -271,21 +280,6 @@ def _emit_fn(g, source, a, blocks, vacuity):
     body = insert_loop_specs(body, loops, f.name)
     spec = "\n".join(blocks["spec"])
     f.has_requires = bool(re.search(r"\brequires\b", spec))
-    if vacuity:
-        # drop ensures/returns clauses, add `ensures false`
-        cl = _split_clauses(spec)
-        keep = [(k, c) for (k, c, _) in cl if k in ("requires", "decreases", "recommends", "no_unwind", "opens_invariants")]
-        parts = []
-        for kind in ("requires",):
-            cs = [c for (k, c) in keep if k == kind]
-            if cs: parts.append("    requires\n" + ",\n".join("        " + c for c in cs) + ",")
-        parts.append("    ensures false,")
-        for kind in ("decreases",):
-            cs = [c for (k, c) in keep if k == kind]
-            if cs: parts.append("    decreases " + ", ".join(cs) + ",")
-        if any(k == "no_unwind" for (k, c) in keep):
-            pass
-        spec = "\n".join(parts)
     f.first = len(g.lines) + 1
     for l in sigtext.split("\n"): g.lines.append(l)
     s0 = len(g.lines) + 1
@@ -296,6 +290,27 @@ def _emit_fn(g, source, a, blocks, vacuity):
     f.emitted = "\n".join(g.lines[f.first - 1:f.last])
     f.sha = hashlib.sha256(f.orig.encode()).hexdigest()[:16]
     g.fns.append(f)
+    if vacuity and f.has_requires and not f.noreach:
+        # must-fail reachability copy: same requires, same body, `ensures false`; callees keep their real contracts
+        cl = _split_clauses(spec)
+        parts = []
+        cs = [c for (k, c, _) in cl if k == "requires"]
+        if cs: parts.append("    requires\n" + ",\n".join("        " + c for c in cs) + ",")
+        parts.append("    ensures false,")
+        cs = [c for (k, c, _) in cl if k == "decreases"]
+        if cs: parts.append("    decreases " + ", ".join(cs) + ",")
+        fname = f.item.split("/")[-1].strip().replace("fn ", "").strip()
+        sig2 = re.sub(r"\bfn\s+%s\b" % re.escape(fname), "fn reach__" + fname, sigtext, count=1)
+        r = Fn()
+        r.name = f.name; r.kind = "reach"; r.props = f.props; r.has_requires = True
+        if g.lines and g.lines[f.first - 2].strip().startswith("#[verifier::exec_allows_no_decreases_clause]"):
+            g.lines.append("#[verifier::exec_allows_no_decreases_clause]")
+        r.first = len(g.lines) + 1
+        for l in sig2.split("\n"): g.lines.append(l)
+        for l in "\n".join(parts).split("\n"): g.lines.append(l)
+        for l in body.split("\n"): g.lines.append(l)
+        r.last = len(g.lines)
+        g.reach.append(r)
 
 
 def _publicise(txt, rl):
